@@ -356,4 +356,501 @@ theorem files_only_for_durable (s : St) (o : Op) (b : BName) (hb : b ∈ (step s
           exact Or.inl hb'
 
 
+/-- id `x` is nowhere in topic `T`'s own queue nor in any of its channels named `c` -/
+def TAbs (T : Topic) (c : String) (x : Nat) : Prop :=
+  (∀ m ∈ T.queue, m.id ≠ x) ∧ ∀ C ∈ T.chans, C.name = c → ∀ m ∈ C.located, m.id ≠ x
+
+def AbsentL (ts : List Topic) (os : List (BName × List Msg)) (t c : String) (x : Nat) : Prop :=
+  (∀ T ∈ ts, T.name = t → TAbs T c x) ∧ (∀ e ∈ os, ∀ m ∈ e.2, m.id ≠ x)
+
+/-- message id `x` is absent from channel (t, c), from topic t's queue and from every orphaned queue -/
+def Absent (s : St) (t c : String) (x : Nat) : Prop := AbsentL s.topics s.orphans t c x
+
+theorem absentL_map (ts : List Topic) (os : List (BName × List Msg)) (t c : String) (x : Nat) (t' : String)
+    (f : Topic → Topic) (hn : ∀ T, (f T).name = T.name)
+    (hp : ∀ T ∈ ts, T.name = t → t' = t → TAbs T c x → TAbs (f T) c x)
+    (h : AbsentL ts os t c x) :
+    AbsentL (ts.map (fun T => if T.name == t' then f T else T)) os t c x := by
+  refine ⟨?_, h.2⟩
+  intro T' hT' hn'
+  obtain ⟨T, hT, rfl⟩ := List.mem_map.mp hT'
+  by_cases hx : T.name == t'
+  · simp only [hx, if_true] at hn' ⊢
+    rw [hn] at hn'
+    exact hp T hT hn' (by rw [← hn']; exact (eq_of_beq hx).symm) (h.1 T hT hn')
+  · simp only [hx] at hn' ⊢
+    exact h.1 T hT hn'
+
+theorem tabs_modChan (T : Topic) (c c' : String) (x : Nat) (f : Chan → Chan) (hn : ∀ C, (f C).name = C.name)
+    (hp : c' = c → ∀ C ∈ T.chans, C.name = c → ∀ m ∈ (f C).located, m.id ≠ x)
+    (h : TAbs T c x) : TAbs (T.modChan c' f) c x := by
+  refine ⟨h.1, ?_⟩
+  intro C' hC' hcn
+  unfold Topic.modChan at hC'
+  obtain ⟨C, hC, rfl⟩ := List.mem_map.mp hC'
+  by_cases hx : C.name == c'
+  · simp only [hx, if_true] at hcn ⊢
+    rw [hn] at hcn
+    exact hp (by rw [← hcn]; exact (eq_of_beq hx).symm) C hC hcn
+  · simp only [hx] at hcn ⊢
+    exact h.2 C hC hcn
+
+theorem absentL_filter (ts : List Topic) (os) (t c : String) (x : Nat) (p : Topic → Bool)
+    (h : AbsentL ts os t c x) : AbsentL (ts.filter p) os t c x :=
+  ⟨fun T hT => h.1 T (List.mem_filter.mp hT).1, h.2⟩
+
+theorem takeId_mem {l : List Msg} {id : Nat} {m : Msg} {rest : List Msg} (h : takeId l id = some (m, rest)) :
+    m ∈ l ∧ m.id = id ∧ ∀ y ∈ rest, y ∈ l := by
+  unfold takeId at h
+  split at h
+  · cases h
+  · rename_i m0 hf
+    cases h
+    refine ⟨List.mem_of_find?_eq_some hf, ?_, fun y hy => List.mem_of_mem_erase hy⟩
+    have := List.find?_some hf
+    exact eq_of_beq this
+
+theorem put_located (cap : Nat) (C : Chan) (m : Msg) : ∀ y ∈ (Chan.put cap C m).located, y ∈ C.located ∨ y = m := by
+  intro y hy
+  unfold Chan.put at hy
+  by_cases h1 : C.memLen < cap
+  · simp only [h1, if_true] at hy
+    have : y ∈ (C.queue ++ [m]) ++ C.inflight.map (·.1) ++ C.deferred := hy
+    simp only [List.mem_append, List.mem_singleton] at this
+    unfold Chan.located
+    simp only [List.mem_append]
+    rcases this with ((h | h) | h) | h
+    · exact Or.inl (Or.inl (Or.inl h))
+    · exact Or.inr h
+    · exact Or.inl (Or.inl (Or.inr h))
+    · exact Or.inl (Or.inr h)
+  · by_cases h2 : C.eph
+    · simp only [h1, h2, if_true, if_false] at hy; exact Or.inl hy
+    · simp only [h1, h2, if_false] at hy
+      have : y ∈ (C.queue ++ [m]) ++ C.inflight.map (·.1) ++ C.deferred := hy
+      simp only [List.mem_append, List.mem_singleton] at this
+      unfold Chan.located
+      simp only [List.mem_append]
+      rcases this with ((h | h) | h) | h
+      · exact Or.inl (Or.inl (Or.inl h))
+      · exact Or.inr h
+      · exact Or.inl (Or.inl (Or.inr h))
+      · exact Or.inl (Or.inr h)
+
+theorem mem_located_iff (C : Chan) (y : Msg) :
+    y ∈ C.located ↔ y ∈ C.queue ∨ (∃ e ∈ C.inflight, e.1 = y) ∨ y ∈ C.deferred := by
+  unfold Chan.located
+  simp only [List.mem_append, List.mem_map]
+  constructor
+  · rintro ((h | h) | h)
+    · exact Or.inl h
+    · exact Or.inr (Or.inl h)
+    · exact Or.inr (Or.inr h)
+  · rintro (h | h | h)
+    · exact Or.inl (Or.inl h)
+    · exact Or.inl (Or.inr h)
+    · exact Or.inr h
+
+theorem put_name' (cap : Nat) (C : Chan) (m : Msg) : (Chan.put cap C m).name = C.name := by
+  unfold Chan.put
+  by_cases h2 : C.memLen < cap <;> by_cases h3 : C.eph <;> simp [h2, h3]
+
+theorem putMessage_located (cap : Nat) (C : Chan) (m : Msg) :
+    ∀ y ∈ (C.putMessage cap m).located, y ∈ C.located ∨ y = m := by
+  intro y hy
+  unfold Chan.putMessage at hy
+  by_cases h1 : C.exiting
+  · simp only [h1, if_true] at hy; exact Or.inl hy
+  · simp only [h1] at hy
+    exact put_located cap C m y hy
+
+theorem foldl_putMessage_located (cap : Nat) (ms : List Msg) : ∀ (C : Chan),
+    ∀ y ∈ (ms.foldl (fun C m => C.putMessage cap m) C).located, y ∈ C.located ∨ y ∈ ms := by
+  induction ms with
+  | nil => intro C y hy; exact Or.inl hy
+  | cons m ms ih =>
+    intro C y hy
+    rcases ih (C.putMessage cap m) y hy with h | h
+    · rcases putMessage_located cap C m y h with h2 | h2
+      · exact Or.inl h2
+      · exact Or.inr (by simp [h2])
+    · exact Or.inr (List.mem_cons_of_mem _ h)
+
+theorem foldl_putMessage_name (cap : Nat) (ms : List Msg) : ∀ (C : Chan),
+    (ms.foldl (fun C m => C.putMessage cap m) C).name = C.name := by
+  induction ms with
+  | nil => intro C; rfl
+  | cons m ms ih => intro C; simp only [List.foldl]; rw [ih]; exact (putMessage_eph cap C m).2
+
+theorem fanoutAll_eq' (cap : Nat) (ms : List Msg) : ∀ (cs : List Chan),
+    fanoutAll cap cs ms = cs.map (fun C => ms.foldl (fun C m => C.putMessage cap m) C) := by
+  induction ms with
+  | nil => intro cs; simp [fanoutAll]
+  | cons m ms ih =>
+    intro cs
+    show fanoutAll cap (fanout cap cs m) ms = _
+    rw [ih]; unfold fanout; rw [List.map_map]; rfl
+
+/-- the operation does not publish id `x` to topic `t` -/
+def NoPub (o : Op) (t : String) (x : Nat) : Prop := ∀ m, o = Op.pub t m → m.id ≠ x
+
+theorem orphanOf_mem {os : List (BName × List Msg)} {b : BName} {m : Msg} (h : m ∈ orphanOf os b) :
+    ∃ e ∈ os, m ∈ e.2 := by
+  unfold orphanOf at h
+  split at h
+  · rename_i e he
+    exact ⟨e, List.mem_of_find?_eq_some he, h⟩
+  · cases h
+
+theorem openChan_located (os : List (BName × List Msg)) (t c : String) (e : Bool) (m : Msg)
+    (h : m ∈ (openChan os t c e).located) : ∃ en ∈ os, m ∈ en.2 := by
+  unfold openChan at h
+  cases e with
+  | true => simp [newChan, Chan.located] at h
+  | false =>
+    simp only [Chan.located, List.map_nil, List.append_nil, Bool.false_eq_true, if_false] at h
+    exact orphanOf_mem h
+
+/-- a channel-level update applied through `modChan` keeps `x` absent when the updated channel only
+holds ids it (or the argument channel `C0` of the same name) held before -/
+theorem absent_modChan (s : St) (t c : String) (x : Nat) (t' c' : String) (f : Chan → Chan)
+    (hn : ∀ C, (f C).name = C.name)
+    (hp : t' = t → c' = c → ∀ C, (∀ m ∈ C.located, m.id ≠ x) → ∀ m ∈ (f C).located, m.id ≠ x)
+    (h : Absent s t c x) : AbsentL (modChan s t' c' f).topics (modChan s t' c' f).orphans t c x := by
+  show AbsentL (modChan s t' c' f).topics s.orphans t c x
+  unfold modChan modTopic
+  apply absentL_map s.topics s.orphans t c x t' (fun T => T.modChan c' f) (fun _ => rfl) _ h
+  intro T _ _ htt hT
+  apply tabs_modChan T c c' x f hn _ hT
+  intro hcc C hC hcn
+  exact hp htt hcc C (hT.2 C hC hcn)
+
+theorem absent_step (s : St) (o : Op) (t c : String) (x : Nat) (h : Absent s t c x) (hno : NoPub o t x) :
+    Absent (step s o).1 t c x := by
+  unfold Absent
+  cases o with
+  | createTopic t' e =>
+    simp only [step]
+    split
+    · exact h
+    · refine ⟨?_, h.2⟩
+      intro T hT hn
+      rcases List.mem_append.mp hT with h1 | h1
+      · exact h.1 T h1 hn
+      · simp at h1; subst h1
+        exact ⟨(by intro m hm; cases hm), (by intro C hC; cases hC)⟩
+  | createChan t' c' e =>
+    simp only [step]
+    split
+    · exact h
+    · split
+      · exact h
+      · refine ⟨?_, ?_⟩
+        · show ∀ T ∈ (modTopic s t' (fun T => T.addChan (openChan s.orphans t' c' e))).topics, _
+          have := absentL_map s.topics s.orphans t c x t' (fun T => T.addChan (openChan s.orphans t' c' e))
+            (fun _ => rfl) ?_ h
+          · exact this.1
+          · intro T _ _ _ hT
+            refine ⟨hT.1, ?_⟩
+            intro C hC hcn
+            rcases List.mem_append.mp hC with h1 | h1
+            · exact hT.2 C h1 hcn
+            · simp at h1; subst h1
+              intro m hm
+              obtain ⟨en, hen, hmen⟩ := openChan_located _ _ _ _ m hm
+              exact h.2 en hen m hmen
+        · intro en hen
+          by_cases he : e
+          · simp only [he, if_true] at hen; exact h.2 en hen
+          · simp only [he] at hen; exact h.2 en (List.mem_filter.mp hen).1
+  | deleteTopic t' =>
+    simp only [step]
+    split
+    · exact h
+    · exact absentL_filter s.topics s.orphans t c x _ h
+  | deleteChanBegin t' c' =>
+    simp only [step]
+    split
+    · exact h
+    · split
+      · exact h
+      · exact absent_modChan s t c x t' c' Chan.deleteBegin deleteBegin_name
+          (fun _ _ C _ m hm => by simp [Chan.deleteBegin, Chan.empty, Chan.located] at hm) h
+  | deleteChanUnlink t' c' =>
+    simp only [step]
+    split
+    · exact h
+    · split
+      · exact h
+      · split
+        · exact h
+        · split
+          · exact absentL_filter s.topics s.orphans t c x _ h
+          · show AbsentL (modTopic s t' (fun T => T.dropChan c')).topics s.orphans t c x
+            apply absentL_map s.topics s.orphans t c x t' (fun T => T.dropChan c') (fun _ => rfl) _ h
+            intro T _ _ _ hT
+            exact ⟨hT.1, fun C hC hcn => hT.2 C (List.mem_filter.mp hC).1 hcn⟩
+  | emptyTopic t' =>
+    simp only [step]
+    split
+    · exact h
+    · show AbsentL (modTopic s t' Topic.clearQueue).topics s.orphans t c x
+      apply absentL_map s.topics s.orphans t c x t' Topic.clearQueue (fun _ => rfl) _ h
+      intro T _ _ _ hT
+      exact ⟨(by intro m hm; cases hm), hT.2⟩
+  | emptyChan t' c' =>
+    simp only [step]
+    split
+    · exact h
+    · split
+      · exact h
+      · exact absent_modChan s t c x t' c' Chan.empty empty_name
+          (fun _ _ C _ m hm => by simp [Chan.empty, Chan.located] at hm) h
+  | pauseTopic t' p =>
+    simp only [step]
+    split
+    · exact h
+    · show AbsentL (modTopic s t' (fun T => { T with paused := p })).topics s.orphans t c x
+      apply absentL_map s.topics s.orphans t c x t' (fun T => { T with paused := p }) (fun _ => rfl) _ h
+      intro T _ _ _ hT; exact hT
+  | pauseChan t' c' p =>
+    simp only [step]
+    split
+    · exact h
+    · exact absent_modChan s t c x t' c' (fun C => { C with paused := p }) (fun _ => rfl)
+        (fun _ _ C hC m hm => hC m hm) h
+  | pub t' m =>
+    simp only [step]
+    split
+    · exact h
+    · show AbsentL (modTopic s t' (fun T => T.put s.memCap m)).topics s.orphans t c x
+      apply absentL_map s.topics s.orphans t c x t' (fun T => T.put s.memCap m) _ _ h
+      · intro T; unfold Topic.put
+        by_cases h2 : T.memLen < s.memCap <;> by_cases h3 : T.eph <;> simp [h2, h3]
+      · intro T _ _ htt hT
+        have hmx : m.id ≠ x := hno m (by rw [htt])
+        unfold Topic.put
+        by_cases h2 : T.memLen < s.memCap
+        · simp only [h2, if_true]
+          refine ⟨?_, hT.2⟩
+          intro y hy
+          rcases List.mem_append.mp hy with h1 | h1
+          · exact hT.1 y h1
+          · simp at h1; subst h1; exact hmx
+        · by_cases h3 : T.eph
+          · simp only [h2, h3, if_true, if_false]; exact hT
+          · simp only [h2, h3, if_false]
+            refine ⟨?_, hT.2⟩
+            intro y hy
+            rcases List.mem_append.mp hy with h1 | h1
+            · exact hT.1 y h1
+            · simp at h1; subst h1; exact hmx
+  | pump t' =>
+    simp only [step]
+    split
+    · exact h
+    · split
+      · exact h
+      · apply absentL_map s.topics s.orphans t c x t'
+          (fun T => Topic.mk T.name T.eph T.paused [] 0 (fanoutAll s.memCap T.chans T.queue) T.msgCount)
+          (fun _ => rfl) _ h
+        intro T _ _ _ hT
+        refine ⟨(by intro m hm; cases hm), ?_⟩
+        intro C' hC' hcn
+        rw [fanoutAll_eq'] at hC'
+        obtain ⟨C, hC, rfl⟩ := List.mem_map.mp hC'
+        rw [foldl_putMessage_name] at hcn
+        intro m hm
+        rcases foldl_putMessage_located s.memCap T.queue C m hm with h1 | h1
+        · exact hT.2 C hC hcn m h1
+        · exact hT.1 m h1
+  | sub t' c' k =>
+    simp only [step]
+    repeat' split
+    all_goals first
+      | exact h
+      | exact absent_modChan s t c x t' c' _ (fun _ => rfl) (fun _ _ C hC m hm => hC m hm) h
+  | unsub t' c' k =>
+    simp only [step]
+    repeat' split
+    all_goals first
+      | exact h
+      | exact absent_modChan s t c x t' c' Chan.deleteBegin deleteBegin_name
+          (fun _ _ C _ m hm => by simp [Chan.deleteBegin, Chan.empty, Chan.located] at hm) h
+      | exact absent_modChan s t c x t' c' _ (fun _ => rfl) (fun _ _ C hC m hm => hC m hm) h
+  | deliver t' c' k fm id =>
+    simp only [step]
+    cases hC0 : getChan s t' c' with
+    | none => exact h
+    | some C0 =>
+      simp only []
+      by_cases hg : (C0.exiting || C0.paused || !hasClient C0 k) = true
+      · rw [if_pos hg]; exact h
+      · rw [if_neg hg]
+        by_cases hz : (if fm = true then C0.memLen else C0.diskLen) = 0
+        · rw [if_pos hz]; exact h
+        · rw [if_neg hz]
+          cases htake : takeId C0.queue id with
+          | none => exact h
+          | some p =>
+            obtain ⟨m, rest⟩ := p
+            simp only []
+            obtain ⟨hm0, _, hrest⟩ := takeId_mem htake
+            obtain ⟨T0, hT0, hn0, hCm0, hcn0⟩ := getChan_mem hC0
+            refine absent_modChan s t c x t' c' _ (fun _ => rfl) ?_ h
+            intro htt hcc C hC y hy
+            have hC0abs : ∀ z ∈ C0.located, z.id ≠ x :=
+              (h.1 T0 hT0 (by rw [hn0, htt])).2 C0 hCm0 (by rw [hcn0, hcc])
+            rcases (mem_located_iff _ y).mp hy with h1 | ⟨en, hen, rfl⟩ | h1
+            · exact hC0abs y ((mem_located_iff C0 y).mpr (Or.inl (hrest y h1)))
+            · rcases List.mem_append.mp hen with h2 | h2
+              · exact hC en.1 ((mem_located_iff C en.1).mpr (Or.inr (Or.inl ⟨en, h2, rfl⟩)))
+              · simp at h2; subst h2
+                exact hC0abs m ((mem_located_iff C0 m).mpr (Or.inl hm0))
+            · exact hC y ((mem_located_iff C y).mpr (Or.inr (Or.inr h1)))
+  | fin t' c' k id =>
+    simp only [step]
+    cases hC0 : getChan s t' c' with
+    | none => exact h
+    | some C0 =>
+      simp only []
+      cases he0 : findInflight C0 k id with
+      | none => exact h
+      | some e0 =>
+        simp only []
+        refine absent_modChan s t c x t' c' _ (fun _ => rfl) ?_ h
+        intro _ _ C hC y hy
+        rcases (mem_located_iff _ y).mp hy with h1 | ⟨en, hen, rfl⟩ | h1
+        · exact hC y ((mem_located_iff C y).mpr (Or.inl h1))
+        · exact hC en.1 ((mem_located_iff C en.1).mpr (Or.inr (Or.inl ⟨en, List.mem_of_mem_erase hen, rfl⟩)))
+        · exact hC y ((mem_located_iff C y).mpr (Or.inr (Or.inr h1)))
+  | req t' c' k id d =>
+    simp only [step]
+    cases hC0 : getChan s t' c' with
+    | none => exact h
+    | some C0 =>
+      simp only []
+      cases he0 : findInflight C0 k id with
+      | none => exact h
+      | some e0 =>
+        simp only []
+        obtain ⟨T0, hT0, hn0, hCm0, hcn0⟩ := getChan_mem hC0
+        have he0m : e0 ∈ C0.inflight := by
+          unfold findInflight at he0
+          exact List.mem_of_find?_eq_some he0
+        have hC0abs : t' = t → c' = c → ∀ z ∈ C0.located, z.id ≠ x := fun htt hcc =>
+          (h.1 T0 hT0 (by rw [hn0, htt])).2 C0 hCm0 (by rw [hcn0, hcc])
+        cases d with
+        | true =>
+          simp only [if_true]
+          refine absent_modChan s t c x t' c' _ (fun _ => rfl) ?_ h
+          intro htt hcc C hC y hy
+          rcases (mem_located_iff _ y).mp hy with h1 | ⟨en, hen, rfl⟩ | h1
+          · exact hC y ((mem_located_iff C y).mpr (Or.inl h1))
+          · exact hC en.1 ((mem_located_iff C en.1).mpr (Or.inr (Or.inl ⟨en, List.mem_of_mem_erase hen, rfl⟩)))
+          · rcases List.mem_append.mp h1 with h2 | h2
+            · exact hC y ((mem_located_iff C y).mpr (Or.inr (Or.inr h2)))
+            · simp at h2; subst h2
+              exact hC0abs htt hcc e0.1 ((mem_located_iff C0 e0.1).mpr (Or.inr (Or.inl ⟨e0, he0m, rfl⟩)))
+        | false =>
+          simp only [Bool.false_eq_true, if_false]
+          refine absent_modChan s t c x t' c' _ ?_ ?_ h
+          · intro C; exact put_name' s.memCap _ _
+          · intro htt hcc C hC y hy
+            rcases put_located s.memCap _ e0.1 y hy with h1 | h1
+            · rcases (mem_located_iff _ y).mp h1 with h2 | ⟨en, hen, rfl⟩ | h2
+              · exact hC y ((mem_located_iff C y).mpr (Or.inl h2))
+              · exact hC en.1 ((mem_located_iff C en.1).mpr (Or.inr (Or.inl ⟨en, List.mem_of_mem_erase hen, rfl⟩)))
+              · exact hC y ((mem_located_iff C y).mpr (Or.inr (Or.inr h2)))
+            · subst h1
+              exact hC0abs htt hcc e0.1 ((mem_located_iff C0 e0.1).mpr (Or.inr (Or.inl ⟨e0, he0m, rfl⟩)))
+  | release t' c' id =>
+    simp only [step]
+    cases hC0 : getChan s t' c' with
+    | none => exact h
+    | some C0 =>
+      simp only []
+      cases htake : takeId C0.deferred id with
+      | none => exact h
+      | some p =>
+        obtain ⟨m, rest⟩ := p
+        simp only []
+        obtain ⟨hm0, _, hrest⟩ := takeId_mem htake
+        obtain ⟨T0, hT0, hn0, hCm0, hcn0⟩ := getChan_mem hC0
+        refine absent_modChan s t c x t' c' _ ?_ ?_ h
+        · intro C; exact put_name' s.memCap _ _
+        · intro htt hcc C hC y hy
+          have hC0abs : ∀ z ∈ C0.located, z.id ≠ x :=
+            (h.1 T0 hT0 (by rw [hn0, htt])).2 C0 hCm0 (by rw [hcn0, hcc])
+          rcases put_located s.memCap _ m y hy with h1 | h1
+          · rcases (mem_located_iff _ y).mp h1 with h2 | ⟨en, hen, rfl⟩ | h2
+            · exact hC y ((mem_located_iff C y).mpr (Or.inl h2))
+            · exact hC en.1 ((mem_located_iff C en.1).mpr (Or.inr (Or.inl ⟨en, hen, rfl⟩)))
+            · exact hC0abs y ((mem_located_iff C0 y).mpr (Or.inr (Or.inr (hrest y h2))))
+          · rw [h1]
+            exact hC0abs m ((mem_located_iff C0 m).mpr (Or.inr (Or.inr hm0)))
+
+/-- a `deliver` of an absent id is never accepted -/
+theorem deliver_absent (s : St) (t c : String) (k : Nat) (fm : Bool) (x : Nat) (h : Absent s t c x) :
+    (step s (.deliver t c k fm x)).2 ≠ Ans.ok := by
+  simp only [step]
+  cases hC0 : getChan s t c with
+  | none => simp
+  | some C0 =>
+    simp only []
+    by_cases hg : (C0.exiting || C0.paused || !hasClient C0 k) = true
+    · rw [if_pos hg]; simp
+    · rw [if_neg hg]
+      by_cases hz : (if fm = true then C0.memLen else C0.diskLen) = 0
+      · rw [if_pos hz]; simp
+      · rw [if_neg hz]
+        cases htake : takeId C0.queue x with
+        | none => simp
+        | some p =>
+          obtain ⟨m, rest⟩ := p
+          obtain ⟨hm0, hid, _⟩ := takeId_mem htake
+          obtain ⟨T0, hT0, hn0, hCm0, hcn0⟩ := getChan_mem hC0
+          exact absurd hid ((h.1 T0 hT0 hn0).2 C0 hCm0 hcn0 m ((mem_located_iff C0 m).mpr (Or.inl hm0)))
+
+/-- what happened to the state: run with the answers -/
+def runAns (s : St) : List Op → List Ans
+  | [] => []
+  | o :: os => (step s o).2 :: runAns (step s o).1 os
+
+theorem absent_run : ∀ (ops : List Op) (s : St) (t c : String) (x : Nat), Absent s t c x →
+    (∀ o ∈ ops, NoPub o t x) → Absent (run s ops) t c x := by
+  intro ops
+  induction ops with
+  | nil => intro s t c x h _; exact h
+  | cons o os ih =>
+    intro s t c x h hno
+    exact ih _ t c x (absent_step s o t c x h (hno o List.mem_cons_self))
+      (fun o' ho' => hno o' (List.mem_cons_of_mem _ ho'))
+
+/-- after `f` (which empties a channel: `Chan.empty` / `Chan.deleteBegin`) has been applied to (t, c),
+an id that is neither waiting in topic t's own queue nor in an orphaned queue is absent -/
+theorem absent_after_clear (s : St) (t c : String) (x : Nat) (f : Chan → Chan) (hn : ∀ C, (f C).name = C.name)
+    (hf : ∀ C, (f C).located = [])
+    (hq : ∀ T ∈ s.topics, T.name = t → ∀ m ∈ T.queue, m.id ≠ x)
+    (ho : ∀ e ∈ s.orphans, ∀ m ∈ e.2, m.id ≠ x) :
+    AbsentL (modChan s t c f).topics s.orphans t c x := by
+  refine ⟨?_, ho⟩
+  intro T' hT' hn'
+  unfold modChan modTopic at hT'
+  obtain ⟨T, hT, rfl⟩ := List.mem_map.mp hT'
+  by_cases hx : T.name == t
+  · simp only [hx, if_true] at hn' ⊢
+    refine ⟨hq T hT (eq_of_beq hx), ?_⟩
+    intro C' hC' hcn
+    unfold Topic.modChan at hC'
+    obtain ⟨C, hC, rfl⟩ := List.mem_map.mp hC'
+    by_cases hc : C.name == c
+    · simp only [hc, if_true]
+      rw [hf]; intro m hm; cases hm
+    · simp only [hc] at hcn
+      exact absurd hcn (by simpa using hc)
+  · simp only [hx] at hn'
+    exact absurd hn' (by simpa using hx)
+
+
 end Nsq.Proofs.Life
